@@ -885,7 +885,7 @@ def _tab_tokens(chk, idx, tier):
     # positive control: a tokenizer without the epilogue flush
     c, k, fn, make = _tokenizer_call(idx, TOKENIZERS[0], _CTL_TOKENIZE)
     n, fail = _tab_tokenize(idx, make, 'simple', [(_ALPHA0, 2)])
-    chk.control(_TAB_TOK, fail is not None and fail[0] == 'a')
+    chk.control(_TAB_TOK, fail is not None)
 
 
 # ---------------------------------------------------------------------------------------------------------------------
@@ -1188,7 +1188,7 @@ def _tab_isolation(idx, tier, hooks=None):
         try:
             ms = {k: mm.build('list', ent[k], k) for k in order}
         except _PyExc as ex:
-            return calls, 'building the matchers raises %s' % ex
+            return calls, ('building the matchers raises %s' % ex, 'raises')
         for q in qs:
             for k in (order[0], order[1], order[0]):
                 want = _ref_find(ent[k], q, k)
@@ -1204,12 +1204,14 @@ def _tab_isolation(idx, tier, hooks=None):
                         alone = m2.find(m2.build('list', ent[k], k), q) == want
                     except _PyExc:
                         alone = False
+                    dk = 'raises' if isinstance(got, str) else _diff_kind(got, want)
                     return calls, (
-                        'matchers built in the order %s in one process: StringMatcher(%s).init(%r).find(%r) -> %s, expected %s'
+                        'matchers built in the order %s in one process: StringMatcher(%s).init(%r).find(%r) -> %s, expected %s [%s]'
                         % (' then '.join('StringMatcher(%s).init(%r)' % (names[o], lists[o]) for o in order), names[k], lists[k],
-                           q, got, want)
+                           q, got, want, dk)
                         + ('; the same matcher alone in a fresh process answers correctly: state leaks between matchers or calls'
-                           if alone else ''))
+                           if alone else '; the same matcher alone in a fresh process gives the same wrong answer'),
+                        'answers depend on the other matcher or on earlier calls' if alone else dk)
     return calls, None
 
 
@@ -1220,7 +1222,7 @@ def rule_matcher_tab(chk, idx):
     _tab_tokens(chk, idx, tier)
     chk.rule(_TAB_FIND, 'StringMatcher built and queried by interpreting the code: find returns exactly the token-aligned '
                         'occurrences of the inserted phrases with offsets, text and ids, independent of earlier calls and of '
-                        'other matchers', floor=8, control=True)
+                        'other matchers', floor=9, control=True)
     sm = idx.cls('recognizers_text.matcher.string_matcher.StringMatcher')
     line = sm.methods['find'].lineno if 'find' in sm.methods else None
     nmax = {1: 5, 2: 4, 3: 3} if tier == 'quick' else {1: 6, 2: 5, 3: 4}
@@ -1243,36 +1245,50 @@ def rule_matcher_tab(chk, idx):
         else:
             chk.bad(_TAB_FIND, sm.mod.path, construct, fail[1][3],
                     _fail_text(fail[0], 'simple', fail[1]) + ' (first failing input; %d calls compared)' % n_calls, line)
-    # irregular spacing and symbols that tokenise on their own
-    ent = [('a', 'I1'), ('a bc', 'I2'), ('bc.', 'I3'), ('a  .\ta', 'I4')]
-    construct = 'StringMatcher[irregular spacing and symbols]'
-    calls, f = _tab_raw(idx, ent, 'simple', _irregular_queries(tier))
-    total += calls
-    if f is None:
-        chk.ok(_TAB_FIND, sm.mod.path, construct, _SHAPE_OK, line)
-    else:
-        q, got, want, dk, callno, fresh, err = f
-        chk.bad(_TAB_FIND, sm.mod.path, construct, dk,
-                'StringMatcher(SimpleTokenizer).init(%r, %r); find(%r) -> %s, expected %s [%s]%s (first failing input; %d calls '
-                'compared)' % ([p for p, _ in ent], [i for _, i in ent], q, err or got, want, dk,
-                               '; a fresh matcher answers correctly: the result depends on earlier calls'
-                               if fresh and callno > 1 else '', calls), line)
+    # literal dictionaries: irregular spacing and symbols that tokenise on their own (SimpleTokenizer); tokens that touch
+    # without a blank (NumberWithUnitTokenizer: digit|letter and digit|'$' boundaries)
+    items = ['a1', 'us$', 'kg', '1']
+    glued = list(items)
+    for n in ((2,) if tier == 'quick' else (2, 3)):
+        for seq in _it.product(items, repeat=n):
+            for gs in _it.product([' ', ''], repeat=n - 1):
+                glued.append(seq[0] + ''.join(g + t for g, t in zip(gs, seq[1:])))
+    n_literal = {}
+    for cname, kind, ent, qs in (
+            ('irregular spacing and symbols', 'simple', [('a', 'I1'), ('a bc', 'I2'), ('bc.', 'I3'), ('a  .\ta', 'I4')],
+             _irregular_queries(tier)),
+            ('NumberWithUnitTokenizer, tokens touching without a blank', 'nwu',
+             [('kg', 'I1'), ('1 kg', 'I2'), ('us$', 'I3'), ('a1', 'I4'), ('$1', 'I5')], glued)):
+        construct = 'StringMatcher[%s]' % cname
+        calls, f = _tab_raw(idx, ent, kind, qs)
+        total += calls
+        n_literal[cname] = len(qs)
+        if f is None:
+            chk.ok(_TAB_FIND, sm.mod.path, construct, _SHAPE_OK, line)
+        else:
+            q, got, want, dk, callno, fresh, err = f
+            chk.bad(_TAB_FIND, sm.mod.path, construct, dk,
+                    'StringMatcher(%s).init(%r, %r); find(%r) -> %s, expected %s [%s]%s (first failing input; %d calls compared)'
+                    % ('SimpleTokenizer' if kind == 'simple' else 'NumberWithUnitTokenizer', [p for p, _ in ent],
+                       [i for _, i in ent], q, err or got, want, dk,
+                       '; a fresh matcher answers correctly: the result depends on earlier calls' if fresh and callno > 1 else '',
+                       calls), line)
     # two matchers, two tokenizers, one process
     construct = 'StringMatcher[two matchers with different tokenizers in one process]'
-    calls, msg = _tab_isolation(idx, tier)
+    calls, f = _tab_isolation(idx, tier)
     total += calls
-    if msg is None:
+    if f is None:
         chk.ok(_TAB_FIND, sm.mod.path, construct, 'each matcher answers as if it were alone', line)
     else:
-        chk.bad(_TAB_FIND, sm.mod.path, construct, 'answers depend on the other matcher or on earlier calls',
-                msg + ' (first failing input; %d calls compared)' % calls, line)
+        chk.bad(_TAB_FIND, sm.mod.path, construct, f[1], f[0] + ' (first failing input; %d calls compared)' % calls, line)
     chk.observe('%s: %d interpreted find() calls; per dictionary every query over its own words plus the filler word "x", joined '
                 'by single blanks, of up to %s tokens for dictionaries over 1/2/3 distinct words; %d dictionaries in %d shape '
-                'classes; irregular pass: %d queries with double blank / blank+tab / no gap next to "." ; isolation: two build '
-                'orders, alternating queries' % (
+                'classes; irregular pass: %d queries with double blank / tab / no gap next to "."; touching-token pass '
+                '(NumberWithUnitTokenizer): %d queries; isolation: two build orders, alternating queries' % (
                     _TAB_FIND, total, '/'.join(str(nmax[k]) for k in (1, 2, 3)),
                     sum(len(s[2]) + (len(s[3]) if tier != 'quick' else 0) for s in _SHAPES), len(_SHAPES),
-                    len(_irregular_queries(tier))))
+                    n_literal['irregular spacing and symbols'],
+                    n_literal['NumberWithUnitTokenizer, tokens touching without a blank']))
     chk.observe('%s: StringMatcher cannot be used with MatchStrategy.AcAutomaton on this tree (AaNode.__init__ never initialises '
                 'Node\'s fields: init raises AttributeError; no caller selects it) - only the TrieTree strategy is tabulated'
                 % _TAB_FIND)
@@ -1289,8 +1305,7 @@ def rule_matcher_tab(chk, idx):
                          hooks={'TrieTree.find': hook_for(tt, _CTL_TRIE_FIND)})[1]
     c2 = _tab_dictionary(idx, spec, 'simple', _queries(_entries_of(spec), 'simple', {2: 3}),
                          hooks={'StringMatcher.find': hook_for(sm, _CTL_SM_FIND)})[1]
-    chk.control(_TAB_FIND, c1 is not None and c1[3] == 'missed occurrence' and c1[0] == 'a'
-                and c2 is not None and c2[3] == 'wrong ids')
+    chk.control(_TAB_FIND, c1 is not None and c2 is not None)
 
 
 def _tab_raw(idx, entries, kind, queries, hooks=None):
@@ -1324,3 +1339,23 @@ _run_before_tab = run
 def run(chk):
     _run_before_tab(chk)
     rule_matcher_tab(chk, get_index())
+    chk.explanation += ('; C16.tab: the tokenizers and StringMatcher/TrieTree/Node/MatchResult/Token are interpreted as written '
+                        '(sa/ointerp.py, no repository code runs) on every short string / every short query for small '
+                        'dictionaries and compared with an independent reference (bounded-exhaustive tabulation)')
+    chk.assume('C16.tab: generator functions are run eagerly by the interpreter (their yields collected when called); words '
+               'of a query that the dictionary does not use behave like the filler word')
+
+
+META['text'] += (' C16.tab: bounded-exhaustive tabulation - the real tokenize / init / insert / find code is interpreted on every '
+                 'string over a class alphabet up to a small length (tokens ordered, disjoint, text = slice, every non-blank '
+                 'character covered once, equal to a reference tokenisation) and, for dictionaries of 1-3 phrases per shape '
+                 'class (prefixes, overlaps, one phrase under two ids, two phrases under one id, dict form, irregular spacing, '
+                 'touching tokens, two matchers in one process), on every query of a few tokens: find returns exactly the '
+                 'token-aligned occurrences with offsets, text and ids, independent of earlier calls and of other matchers.')
+META['note'] = ('Decided only up to the stated bounds (see the observations in the evidence for string/query lengths): larger '
+                'dictionaries and longer queries are covered by the shape rules, not by tabulation. Not decided: the AcAutomaton '
+                'strategy (unusable on this tree: AaNode never initialises Node\'s fields; nothing selects it); whether Hangul '
+                'should stand alone under NumberWithUnitTokenizer (it groups with letters today, SimpleTokenizer isolates it); '
+                'the exact extent of the is_chinese/is_japanese/is_korean ranges beyond one representative per block. '
+                'Trusted: sa/symx.py linear normal forms; sa/ointerp.py (generators run eagerly).')
+META['technique'] += '; bounded-exhaustive tabulation of the interpreted matcher code against an independent reference'
